@@ -393,6 +393,8 @@ func animOne(c *ev.Ctx, cs ev.Case, lossyAlpha bool) {
 			dur := 1 + r.Intn(500)
 			if r.Intn(6) == 0 {
 				dur = pickI(r, 0xFFFFFF, 0x1000000, 0x1000001) // at and above what one frame can hold
+			} else if r.Intn(5) == 0 {
+				dur = 0 // a lone frame without a display time is no animation by the muxer's rule: canvas and offset must survive all the same
 			}
 			if viaAddFrame {
 				err = e.AddFrame(animation.NewBitstreamFrame(bs, fw, fh), time.Duration(dur)*time.Millisecond)
